@@ -370,8 +370,17 @@ NAME_WORDS = ["class", "def", "None", "True", "self", "_dict", "__init__", "__cl
               "6_leading_number", "10", "", " ", "__", "Ünïcode", "camelCase", "with space", "import", "async", "match", "print", "type", "٣", "１st", "९_lives"]
 
 
+def _fullwidth(w):
+    return "".join(chr(ord(c) + 0xFEE0) if "!" <= c <= "~" else c for c in w)
+
+
+# compatibility spellings (NFKC-equal to a keyword / reserved / dunder name): fullwidth forms, ligatures, superscripts
+NAME_WORDS_COMPAT = [_fullwidth(w) for w in ("class", "def", "None", "self", "_dict", "dict", "__init__", "__class__", "properties", "default", "import", "a_b", "x")] + \
+    ["_" + _fullwidth("dict"), "ｄict", "cl\uff41ss", "\ufb01", "\ufb01le", "x\u00b2", "\u2460", "\u212b", "de\ufb00"]
+
+
 def names_pool(tier):
-    out = list(NAME_WORDS)
+    out = list(NAME_WORDS) + list(NAME_WORDS_COMPAT)
     for a in NAME_ALPHABET:
         out.append(a)
     for a, b in itertools.product(NAME_ALPHABET, repeat=2):
@@ -1280,6 +1289,13 @@ def c06_roundtrip(run):
         {"type": "object", "title": "Cmd", "description": "A command.\n", "properties": {"a": {"type": "string"}}},
         {"type": "object", "title": "Cmd", "description": "  leading\n    indented block\n", "properties": {"a": {"type": "string"}}},
         {"type": ["string", "null"], "default": None}, {"type": "object", "title": "N", "properties": {"p": {"type": ["integer", "null"], "default": None}}}]
+    # annotations (description / default) on every non-object shape too: a description on a typed, multi-typed, composed or untyped
+    # schema must survive -- or be dropped -- the same way on every round
+    for shape in [{"type": "string"}, {"type": ["string", "integer"]}, {"type": ["string", "null"], "default": None}, {"anyOf": [{"type": "string"}, {"type": "null"}]},
+                  {"allOf": [{"minimum": 1}]}, {"oneOf": [{"type": "integer"}, {"type": "string"}]}, {"not": {"type": "null"}}, {}, {"minimum": 1},
+                  {"type": "array", "items": {"type": ["number", "null"], "description": "an item"}}, {"items": [{"type": "string", "description": "first"}]}]:
+        docs.append({**copy.deepcopy(shape), "description": "an identifier"})
+        docs.append({"type": "object", "title": "Holder", "properties": {"p": {**copy.deepcopy(shape), "description": "a \"quoted\" text"}}})
     acc = Acc(run, "C06-roundtrip", f"{len(docs)} schema documents: serialize(parse(serialize(parse(S)))) == serialize(parse(S)); executed Python source yields classes equal to the parsed ones")
     w = quiet()
 
